@@ -8,6 +8,7 @@ allprops = "--all-props" in args
 only = [a for a in args if not a.startswith("--")]
 ALL = ["C%02d" % i for i in range(1, 21)]
 items = sorted(glob.glob(os.path.join(SRC, "*", "C*_*", "patch.diff")) + glob.glob(os.path.join(SRC, "C*_*", "patch.diff")) + glob.glob(os.path.join(SRC, "*.diff")))
+CHK = os.environ.get("PYVC_SNAP", "/verif")   # a snapshot of /verif (git archive) so that edits in /verif do not disturb a long evaluation
 scratch = "/verif/.work/evalrepo%d" % os.getpid()
 rows = []
 for patch in items:
@@ -27,7 +28,7 @@ for patch in items:
     env = dict(os.environ, PYVC_REPO=scratch, PYTHONPATH=scratch + "/src", PYTHONDONTWRITEBYTECODE="1")
     for prop in props:
         t0 = time.time()
-        p = subprocess.run(["./check", prop, "--tier", "quick"], cwd="/verif", capture_output=True, text=True, timeout=3600, env=env)
+        p = subprocess.run(["./check", prop, "--tier", "quick"], cwd=CHK, capture_output=True, text=True, timeout=3600, env=env)
         out = p.stdout
         viol = [l for l in out.splitlines() if l.startswith("VIOLATION")]
         und = [l for l in out.splitlines() if l.startswith("UNDECIDED")]
